@@ -40,6 +40,16 @@ def regenerate_routes():
     return out.strip()
 
 
+def regenerate_dict():
+    ok, log = common.go_build(["dictgen"])
+    if not ok:
+        raise RuntimeError(log[-3000:])
+    rc, out = sh([os.path.join(HARNESS, "bin", "dictgen"), os.path.join(COQ, "Diam/DictGen.v")], timeout=300)
+    if rc != 0:
+        raise RuntimeError("dictgen failed:\n" + out[-3000:])
+    return out.strip()
+
+
 def regenerate_all():
-    info = {"ber": regenerate_ber(), "routes": regenerate_routes()}
+    info = {"ber": regenerate_ber(), "routes": regenerate_routes(), "dict": regenerate_dict()}
     return info
